@@ -15,26 +15,35 @@
 // error, or transfer n bytes with n <= buffer length.  One poll from an arbitrary invariant-satisfying state is the
 // inductive step over all fragmentations and Pending injections, with no bound on the number of polls.
 use super::*;
+
+/// Every mutable static of this file carries a unique tag next to its value.  Kani 0.68 names a constant allocation
+/// after the first global with the same bytes, so an all-zero `static mut X: usize = 0` can become the storage of an
+/// unrelated all-zero CONSTANT of the standard library (observed: alloc::raw_vec::ZERO_CAP read from a harness
+/// counter, depending on the crate hash and therefore on the path of the checkout).  A unique tag makes the bytes of
+/// each static unique, so no constant can be merged with it.
+#[repr(C)]
+struct Tagged<T> { tag: u64, v: T }
+
 use std::task::{Context, Poll};
 
 type TcpSub = crate::transport::tcp::Substream;
 
 // ---- carrier contract ----------------------------------------------------------------------------------
-static mut READ_CALLS: u32 = 0;
-static mut READ_ASKED: usize = 0;      // remaining() of the buffer handed to the carrier on the last read
-static mut WRITE_OFFERED: usize = 0;   // total bytes offered to the carrier's poll_write
-static mut WRITE_TAKEN: usize = 0;     // total bytes the carrier accepted
-static mut WRITE_PENDING: bool = false;
-static mut WRITE_CALLS: u32 = 0;
-static mut FLUSH_OK: bool = false;
+static mut READ_CALLS: Tagged<u32> = Tagged { tag: 0x9dea74a7b9cd861, v: 0 };
+static mut READ_ASKED: Tagged<usize> = Tagged { tag: 0x1cec7460351014f, v: 0 };      // remaining() of the buffer handed to the carrier on the last read
+static mut WRITE_OFFERED: Tagged<usize> = Tagged { tag: 0xbfcd99f754c7b8f, v: 0 };   // total bytes offered to the carrier's poll_write
+static mut WRITE_TAKEN: Tagged<usize> = Tagged { tag: 0xa85f7030d4156a7, v: 0 };     // total bytes the carrier accepted
+static mut WRITE_PENDING: Tagged<bool> = Tagged { tag: 0x3933ff8c523a113, v: false };
+static mut WRITE_CALLS: Tagged<u32> = Tagged { tag: 0x1ea16968ed291b1, v: 0 };
+static mut FLUSH_OK: Tagged<bool> = Tagged { tag: 0xb1c902d129d540f, v: false };
 
 fn nd_poll_read(_s: Pin<&mut TcpSub>, _cx: &mut Context<'_>, buf: &mut ReadBuf<'_>) -> Poll<std::io::Result<()>> {
     // the carrier parks on its second poll: one transfer, one re-entry of the read loop, then Pending.
     // (Every later iteration starts from a state this harness already quantifies over.)
     unsafe {
-        if READ_CALLS >= 1 { return Poll::Pending; }
-        READ_CALLS += 1;
-        READ_ASKED = buf.remaining();
+        if READ_CALLS.v >= 1 { return Poll::Pending; }
+        READ_CALLS.v += 1;
+        READ_ASKED.v = buf.remaining();
     }
     match kani::any::<u8>() % 3 {
         0 => Poll::Pending,
@@ -52,18 +61,18 @@ fn nd_poll_read(_s: Pin<&mut TcpSub>, _cx: &mut Context<'_>, buf: &mut ReadBuf<'
 fn nd_poll_write(_s: Pin<&mut TcpSub>, _cx: &mut Context<'_>, buf: &[u8]) -> Poll<Result<usize, std::io::Error>> {
     unsafe {
         // parks on its third poll (two frames can be in flight in the harness state)
-        if WRITE_CALLS >= 2 { WRITE_PENDING = true; return Poll::Pending; }
-        WRITE_CALLS += 1;
-        WRITE_OFFERED += buf.len();
+        if WRITE_CALLS.v >= 2 { WRITE_PENDING.v = true; return Poll::Pending; }
+        WRITE_CALLS.v += 1;
+        WRITE_OFFERED.v += buf.len();
     }
     match kani::any::<u8>() % 3 {
-        0 => { unsafe { WRITE_PENDING = true; } Poll::Pending }
+        0 => { unsafe { WRITE_PENDING.v = true; } Poll::Pending }
         1 => Poll::Ready(Err(ErrorKind::BrokenPipe.into())),
         _ => {
             let n: usize = kani::any();
             // a well-behaved carrier accepts at least one byte of a non-empty buffer (0 means "write zero" = error)
             kani::assume(n <= buf.len() && (n >= 1 || buf.is_empty()));
-            unsafe { WRITE_TAKEN += n; }
+            unsafe { WRITE_TAKEN.v += n; }
             Poll::Ready(Ok(n))
         }
     }
@@ -72,7 +81,7 @@ fn nd_poll_flush(_s: Pin<&mut TcpSub>, _cx: &mut Context<'_>) -> Poll<Result<(),
     match kani::any::<u8>() % 3 {
         0 => Poll::Pending,
         1 => Poll::Ready(Err(ErrorKind::BrokenPipe.into())),
-        _ => { unsafe { FLUSH_OK = true; } Poll::Ready(Ok(())) }
+        _ => { unsafe { FLUSH_OK.v = true; } Poll::Ready(Ok(())) }
     }
 }
 
@@ -155,7 +164,7 @@ fn c04_poll_next_identity_first_poll() {
         assert!(f.len() == n);
     }
     // the carrier is never asked for more than the rest of the current frame
-    unsafe { if READ_CALLS > 0 { assert!(READ_ASKED <= n); } }
+    unsafe { if READ_CALLS.v > 0 { assert!(READ_ASKED.v <= n); } }
     core::mem::forget(r);
     core::mem::forget(s);
 }
@@ -180,13 +189,13 @@ fn c04_poll_next_identity_step() {
         Poll::Pending => { assert!(s.offset >= off && s.offset < n); assert!(s.read_buffer.len() >= n); }
         _ => {}
     }
-    unsafe { assert!(READ_ASKED <= n - off); }
+    unsafe { assert!(READ_ASKED.v <= n - off); }
     core::mem::forget(r);
     core::mem::forget(s);
 }
 
 // ---- Stream::poll_next, length-prefixed frames ----------------------------------------------------------
-static mut ZEROED_MAX: usize = 0;
+static mut ZEROED_MAX: Tagged<usize> = Tagged { tag: 0x620049aa0d7a2bb, v: 0 };
 
 /// prefix phase: one byte at a time; an oversized / malformed length is an error, never a panic, never an allocation
 /// above the configured maximum.  Arbitrary prefix bytes already received (offset < 10).
@@ -211,7 +220,7 @@ fn c04_poll_next_varint_prefix_step() {
     kani::cover!(matches!(r, Poll::Ready(Some(Err(_)))));
     kani::cover!(matches!(r, Poll::Ready(Some(Ok(_)))));
     kani::cover!(s.current_frame_size.is_some());
-    unsafe { assert!(READ_CALLS == 0 || READ_ASKED <= 1 || s.current_frame_size.is_some()); }
+    unsafe { assert!(READ_CALLS.v == 0 || READ_ASKED.v <= 1 || s.current_frame_size.is_some()); }
     if let Some(sz) = s.current_frame_size {
         // P3: the announced size was accepted => within the limit, and the buffer was sized to exactly it
         if let Some(m) = max { assert!(sz <= m); }
@@ -333,11 +342,11 @@ fn c04_sink_flush_complete_means_drained() {
         Poll::Ready(Ok(())) => {
             assert!(s.pending_out_frame.is_none(), "[F2] flush reported complete while a frame is still parked");
             assert!(s.pending_out_frames.is_empty(), "[F2] flush reported complete while frames are still queued");
-            unsafe { assert!(WRITE_TAKEN == a + b); assert!(FLUSH_OK); }
+            unsafe { assert!(WRITE_TAKEN.v == a + b); assert!(FLUSH_OK.v); }
         }
         Poll::Pending => {
             // nothing is lost: what the carrier has not taken is still queued
-            unsafe { assert!(queued_bytes(&s) + WRITE_TAKEN == a + b); }
+            unsafe { assert!(queued_bytes(&s) + WRITE_TAKEN.v == a + b); }
         }
         Poll::Ready(Err(_)) => {}
     }
